@@ -250,6 +250,7 @@ pub fn scenario(g: &mut G, ctx: &RunCtx) -> RunReport {
         extra_headers: headers,
         read_api: 0,
         text_charset: None,
+        text_charset_implicit: false,
         prelude: None,
         damage: damage.to_string(),
         cut_at: None,
